@@ -78,6 +78,38 @@ class Oracle:
         return False
 
 
+class PosOracle:
+    """A leaf whose outcome is a function of the position alone, as a terminal's is: it matches one character at the
+    positions in ``at`` (optionally pushing on the user stack) and fails clean elsewhere.  With such leaves a
+    rewrite that cannot change the meaning of a grammar must not change the result (sa/rewritesem.py)."""
+
+    def __init__(self, name: str, at: frozenset, log: list, push: bool = False):
+        self.name, self.at, self.log, self.push = name, frozenset(at), log, push
+        self.calls = 0
+
+    def __call__(self, state: Obj, pairs: list) -> bool:
+        self.calls += 1
+        hit = state.pos in self.at
+        self.log.append((self.name, "S1" if hit else "Fc", state.pos))
+        if not hit:
+            return False
+        pairs.append(f"{self.name}@{state.pos}")
+        state.pos += 1
+        if self.push:
+            state.user_stack.__dict__["items"].append(f"pushed-{self.name}@{state.pos - 1}")
+        return True
+
+
+def make_oracle(name: str, script: object, log: list) -> "Oracle | PosOracle":
+    """A scripted leaf (a list of outcomes, consumed per call) or a position-determined one (a set of positions;
+    a tuple ("push", set) for one that also pushes on the user stack)."""
+    if isinstance(script, (set, frozenset)):
+        return PosOracle(name, frozenset(script), log)
+    if isinstance(script, tuple) and len(script) == 2 and script[0] == "push":
+        return PosOracle(name, frozenset(script[1]), log, push=True)
+    return Oracle(name, script, log)  # type: ignore[arg-type]
+
+
 def observe(state: Obj, pairs: list, result: object) -> dict:
     return {
         "result": result, "pos": state.pos, "stack": list(state.user_stack.__dict__.get("items", [])), "pairs": [str(p) if not isinstance(p, Obj) else f"Pair({p.__dict__.get('name')},{p.__dict__.get('start')},{p.__dict__.get('end')})" for p in pairs],
@@ -390,4 +422,40 @@ def check_checkpoint_cover(repo: Repo, where: str) -> tuple[int, list[tuple[str,
                 bad.append(("ok() does not discard exactly the saved position, or moves the position", f"{desc}: saved positions {hist_before} -> {hist}, position {st.pos}"))
             if meth == "restore" and (hist != hist_before[:-1] or st.pos != 3):
                 bad.append(("restore() does not reinstate the saved position", f"{desc}: saved positions {hist_before} -> {hist}, position {st.pos} (saved 3)"))
+    # the pending tags: a rule takes the top tag for its pair (Rule.parse pops it), so an abandoned attempt must give
+    # it back - restore() reinstates the tag stack of the checkpoint, ok() keeps what the attempt left, nested
+    # checkpoints pair up (whatever the representation of the saved copies)
+    for t0 in ([], ["t1"], ["t1", "t2"]):
+        for inner in ("ok", "restore"):
+            for outer in ("ok", "restore"):
+                n += 1
+                st, _ = fresh_state(cm, (), None, [])
+                tags = st.__dict__.get("tag_stack")
+                if not isinstance(tags, list):
+                    raise AnalysisError(f"{where}: anchor vanished: ParserState.tag_stack is no longer a list")
+                tags[:] = list(t0)
+                desc = f"tags {t0}: checkpoint, take/push a tag, checkpoint, take/push a tag, {inner}(), {outer}()"
+                try:
+                    cm.call(st, "checkpoint")
+                    if tags:
+                        tags.pop()
+                    tags.append("a")
+                    t1 = list(tags)
+                    cm.call(st, "checkpoint")
+                    tags.pop()
+                    tags.append("b")
+                    tags.append("c")
+                    t2 = list(tags)
+                    cm.call(st, inner)
+                    after_inner = list(st.__dict__["tag_stack"])
+                    cm.call(st, outer)
+                    after_outer = list(st.__dict__["tag_stack"])
+                except ModelRaise as err:
+                    bad.append(("checkpoint / ok / restore raise with pending tags", f"{desc}: {err}"))
+                    continue
+                want_inner = t2 if inner == "ok" else t1
+                want_outer = list(t0) if outer == "restore" else want_inner
+                if after_inner != want_inner or after_outer != want_outer:
+                    which = "restore() does not give back the tags an abandoned attempt took" if "restore" in (inner, outer) and (after_inner != want_inner if inner == "restore" else after_outer != want_outer) else "ok() changes the pending tags"
+                    bad.append((which, f"{desc}: tags after {inner}() {after_inner} (specified {want_inner}), after {outer}() {after_outer} (specified {want_outer})"))
     return n, bad
